@@ -976,6 +976,25 @@ def m_checked_sub(I, st, call):
     return out
 
 
+@model("core::num::<impl usize>::trailing_zeros", "core::num::<impl u64>::trailing_zeros", "core::num::<impl u32>::trailing_zeros",
+       "core::num::<impl u16>::trailing_zeros", "core::num::<impl u8>::trailing_zeros",
+       "core::num::<impl usize>::count_ones", "core::num::<impl u64>::count_ones", "core::num::<impl u32>::count_ones",
+       "core::num::<impl u16>::count_ones", "core::num::<impl u8>::count_ones")
+def m_trailing_zeros(I, st, call):
+    """constant-folded for a constant argument (masks); otherwise 0..=w"""
+    x = call.args[0]
+    u32 = (32, False)
+    if not isinstance(x, IntV) or x.ty is None or x.ty[1]:
+        return None
+    w = x.ty[0]
+    if x.aff.is_const():
+        c = x.aff.c
+        if call.name == "count_ones":
+            return [(st, IntV(Aff.const(bin(c).count("1")), u32))]
+        return [(st, IntV(Aff.const(w if c == 0 else (c & -c).bit_length() - 1), u32))]
+    return [(st, I.fresh_int(st, "tz", u32, 0, w))]
+
+
 @model("core::num::<impl usize>::leading_zeros", "core::num::<impl u64>::leading_zeros", "core::num::<impl u32>::leading_zeros",
        "core::num::<impl u16>::leading_zeros", "core::num::<impl u8>::leading_zeros")
 def m_leading_zeros(I, st, call):
